@@ -149,7 +149,12 @@ func spec_csCnt(s *ImmuStore) bool {
 //@   ensures allow_keep_or_clamp: s.commitAllowedUpToTxID == old(s.commitAllowedUpToTxID) || s.commitAllowedUpToTxID == s.inmemPrecommittedTxID
 //@   ensures allow_le: s.commitAllowedUpToTxID <= old(s.commitAllowedUpToTxID)
 //@   ensures allow_cap: old(s.useExternalCommitAllowance) && old(s.commitAllowedUpToTxID) <= old(s.inmemPrecommittedTxID) ==> s.commitAllowedUpToTxID <= s.inmemPrecommittedTxID
-//@   assigns internal, s, s.cLogBuf
+// (con-c07b, additive) C02: the durable-precommit watermark is receded AFTER the precommitted id was lowered: it never
+// stays above the precommitted id (value-level form of the order rule `store s.inmemPrecommittedTxID before
+// s.durablePrecommitWHub.RecedeTo`, which the engine cannot express: the recede happens in a deferred closure).
+//@   ensures c07b_recede: !old(s.durablePrecommitWHub.closed) && old(s.durablePrecommitWHub.doneUpto) <= old(s.inmemPrecommittedTxID) ==> s.durablePrecommitWHub.doneUpto <= s.inmemPrecommittedTxID
+//@   ensures c07b_hub: s.durablePrecommitWHub == old(s.durablePrecommitWHub)
+//@   assigns internal, s, s.cLogBuf, s.durablePrecommitWHub
 
 //@ func (*ImmuStore).DiscardPrecommittedTxsSince$1
 //@   requires hub: s.durablePrecommitWHub != nil
@@ -180,30 +185,33 @@ func spec_csCnt(s *ImmuStore) bool {
 //@   loop 1 invariant len: len(offsets) == len(entries)
 //@   loop 1 decreases len(offsets) - i
 
-// performPrecommit. Representation facts assumed at entry (established by OpenWith / the tx pool and kept by every
-// function of the package): spec_csWF, the ring buffer's slots, the holder's entry slots, a header version the
-// serializer knows (precommit gets it from BuildHashTree), NEntries == len(entries) <= len(tx.entries).
-// `ok_*`: the property's clauses for a successful precommit. `bad_*`: an error return leaves the guarded fields alone.
-// `ok_blroot0`: a header that links to no earlier transaction carries the zero root (C02 "embeds the root of the hash
-// tree over all earlier accumulated hashes"; C07 "zero when BlTxID = 0").
+// performPrecommit (block owner since round 2: con-c07b, see /verif/notes/con-c07b.md).
+// Representation facts assumed at entry (established by OpenWith / the tx pool and kept by every function of the
+// package): spec_csWF, non-nil ring-buffer slots, the lock invariant spec_csInv, a holder with a header whose version the
+// serializer knows (precommit gets it from BuildHashTree), the serialization buffer s._txbs separate from the objects
+// whose fields the postconditions mention.
+// `ok_*`: the property's clauses for a successful precommit (C02: "the single place where tx ids and PrevAlh are
+// assigned"). `bad_*`: an error return leaves the guarded fields alone. `ok_blroot0`: a header that links to no earlier
+// transaction carries the zero root (C02 "embeds the root of the hash tree over all earlier accumulated hashes"; C07
+// "zero when BlTxID = 0"; defect D1 of round 1, repaired). `keep_*`: the header fields precommit validated against the
+// primary's header before the call are not touched (C07). One fact per clause (conjunctions cost the solver minutes).
+// Loops (engine numbering by smallest source position: 1 = entry serialization, 2 = range over entries, 3 = vOff loop):
+// loop 3 writes the holders tx.entries[i], which no frame expression can name: `assigns *` + invariants;
+// loop 1 writes only the bytes of s._txbs.
 //@ func (*ImmuStore).performPrecommit
 //@   divmod abstract
 //@   requires wf: spec_csWF(s)
 //@   requires elems: forall(k, 0, len(s.cLogBuf.buf), s.cLogBuf.buf[k] != nil)
-//@   requires distinct: forall(k, 0, len(s.cLogBuf.buf), forall(j, 0, len(s.cLogBuf.buf), k != j ==> !sameobj(s.cLogBuf.buf[k], s.cLogBuf.buf[j])))
-//@   requires sep: forall(k, 0, len(s.cLogBuf.buf), !sameobj(s.cLogBuf.buf[k], s.cLogBuf))
 //@   requires inv: spec_csInv(s)
 //@   requires txwf: tx != nil && tx.header != nil && (tx.header.Version == 0 || tx.header.Version == 1)
-//@   requires nent: 0 <= tx.header.NEntries && tx.header.NEntries <= len(tx.entries) && tx.header.NEntries == len(entries)
-//@   requires ents: forall(k, 0, len(tx.entries), tx.entries[k] != nil)
 //@   requires specs: forall(k, 0, len(entries), entries[k] != nil)
-//@   requires cache: s.txLogCache != nil
 //@   requires sepbuf: !sameobj(s._txbs, s) && !sameobj(s._txbs, tx.header) && !sameobj(s._txbs, s.cLogBuf) && !sameobj(s._txbs, tx)
 //@   ensures ok_id: r0 == nil ==> tx.header.ID == old(s.inmemPrecommittedTxID) + 1
 //@   ensures ok_prev: r0 == nil ==> tx.header.PrevAlh == old(s.inmemPrecommittedAlh)
 //@   ensures ok_ts: r0 == nil ==> tx.header.Ts == ts
 //@   ensures ok_bl: r0 == nil ==> tx.header.BlTxID == blTxID
 //@   ensures ok_blroot0: r0 == nil && blTxID == 0 ==> be64(tx.header.BlRoot[0:]) == 0 && be64(tx.header.BlRoot[8:]) == 0 && be64(tx.header.BlRoot[16:]) == 0 && be64(tx.header.BlRoot[24:]) == 0
+//@   ensures ok_adv: r0 == nil ==> s.inmemPrecommittedTxID == old(s.inmemPrecommittedTxID) + 1
 //@   ensures ok_pid: r0 == nil ==> s.inmemPrecommittedTxID == tx.header.ID
 //@   ensures ok_palh: r0 == nil ==> s.inmemPrecommittedAlh == tx.header.Alh()
 //@   ensures bad_cid: r0 != nil ==> s.committedTxID == old(s.committedTxID)
@@ -212,49 +220,24 @@ func spec_csCnt(s *ImmuStore) bool {
 //@   ensures bad_palh: r0 != nil ==> s.inmemPrecommittedAlh == old(s.inmemPrecommittedAlh)
 //@   ensures bad_sz: r0 != nil ==> s.precommittedTxLogSize == old(s.precommittedTxLogSize)
 //@   ensures mono: s.committedTxID >= old(s.committedTxID)
+//@   ensures inv: spec_csInv(s)
 //@   ensures keep_hdr: tx.header == old(tx.header)
-//@   loop 1 invariant g_hdr: tx.header == old(tx.header)
-//@   loop 1 invariant g_id: tx.header.ID == old(s.inmemPrecommittedTxID) + 1
-//@   loop 1 invariant g_prev: tx.header.PrevAlh == old(s.inmemPrecommittedAlh)
-//@   loop 1 invariant g_ts: tx.header.Ts == ts
-//@   loop 1 invariant g_bl: tx.header.BlTxID == blTxID
-//@   loop 1 invariant g_ver: tx.header.Version == old(tx.header.Version)
-//@   loop 1 invariant g_nent: tx.header.NEntries == old(tx.header.NEntries)
-//@   loop 1 invariant g_cid: s.committedTxID == old(s.committedTxID)
-//@   loop 1 invariant g_calh: s.committedAlh == old(s.committedAlh)
-//@   loop 1 invariant g_pid: s.inmemPrecommittedTxID == old(s.inmemPrecommittedTxID)
-//@   loop 1 invariant g_palh: s.inmemPrecommittedAlh == old(s.inmemPrecommittedAlh)
-//@   loop 1 invariant g_sz: s.precommittedTxLogSize == old(s.precommittedTxLogSize)
-//@   loop 1 invariant g_buf: s.cLogBuf == old(s.cLogBuf)
-//@   loop 1 invariant g_txbs: s._txbs == old(s._txbs)
+//@   ensures keep_ver: tx.header.Version == old(tx.header.Version)
+//@   ensures keep_nent: tx.header.NEntries == old(tx.header.NEntries)
+//@   ensures keep_eh: tx.header.Eh == old(tx.header.Eh)
+//@   ensures keep_md: tx.header.Metadata == old(tx.header.Metadata)
+//@   loop 3 assigns *
+//@   loop 3 invariant v_s: unchanged(s)
+//@   loop 3 invariant v_buf: unchanged(s.cLogBuf)
+//@   loop 3 invariant v_arr: unchanged(s.cLogBuf.buf)
+//@   loop 3 invariant v_tx: unchanged(tx)
+//@   loop 3 invariant v_id: tx.header.ID == old(s.inmemPrecommittedTxID) + 1
+//@   loop 3 invariant v_ts: tx.header.Ts == ts
+//@   loop 3 invariant v_bl: tx.header.BlTxID == blTxID
+//@   loop 3 invariant v_prev: tx.header.PrevAlh == old(s.inmemPrecommittedAlh)
+//@   loop 3 invariant v_blroot0: blTxID == 0 ==> be64(tx.header.BlRoot[0:]) == 0 && be64(tx.header.BlRoot[8:]) == 0 && be64(tx.header.BlRoot[16:]) == 0 && be64(tx.header.BlRoot[24:]) == 0
+//@   loop 3 invariant v_ver: tx.header.Version == old(tx.header.Version)
+//@   loop 3 invariant v_nent: tx.header.NEntries == old(tx.header.NEntries)
+//@   loop 3 invariant v_eh: tx.header.Eh == old(tx.header.Eh)
+//@   loop 3 invariant v_md: tx.header.Metadata == old(tx.header.Metadata)
 //@   loop 1 assigns s._txbs
-//@   loop 2 invariant g_hdr: tx.header == old(tx.header)
-//@   loop 2 invariant g_id: tx.header.ID == old(s.inmemPrecommittedTxID) + 1
-//@   loop 2 invariant g_prev: tx.header.PrevAlh == old(s.inmemPrecommittedAlh)
-//@   loop 2 invariant g_ts: tx.header.Ts == ts
-//@   loop 2 invariant g_bl: tx.header.BlTxID == blTxID
-//@   loop 2 invariant g_ver: tx.header.Version == old(tx.header.Version)
-//@   loop 2 invariant g_nent: tx.header.NEntries == old(tx.header.NEntries)
-//@   loop 2 invariant g_cid: s.committedTxID == old(s.committedTxID)
-//@   loop 2 invariant g_calh: s.committedAlh == old(s.committedAlh)
-//@   loop 2 invariant g_pid: s.inmemPrecommittedTxID == old(s.inmemPrecommittedTxID)
-//@   loop 2 invariant g_palh: s.inmemPrecommittedAlh == old(s.inmemPrecommittedAlh)
-//@   loop 2 invariant g_sz: s.precommittedTxLogSize == old(s.precommittedTxLogSize)
-//@   loop 2 invariant g_buf: s.cLogBuf == old(s.cLogBuf)
-//@   loop 2 invariant g_txbs: s._txbs == old(s._txbs)
-//@   loop 2 assigns s._txbs
-//@   loop 3 invariant g_hdr: tx.header == old(tx.header)
-//@   loop 3 invariant g_id: tx.header.ID == old(s.inmemPrecommittedTxID) + 1
-//@   loop 3 invariant g_prev: tx.header.PrevAlh == old(s.inmemPrecommittedAlh)
-//@   loop 3 invariant g_ts: tx.header.Ts == ts
-//@   loop 3 invariant g_bl: tx.header.BlTxID == blTxID
-//@   loop 3 invariant g_ver: tx.header.Version == old(tx.header.Version)
-//@   loop 3 invariant g_nent: tx.header.NEntries == old(tx.header.NEntries)
-//@   loop 3 invariant g_cid: s.committedTxID == old(s.committedTxID)
-//@   loop 3 invariant g_calh: s.committedAlh == old(s.committedAlh)
-//@   loop 3 invariant g_pid: s.inmemPrecommittedTxID == old(s.inmemPrecommittedTxID)
-//@   loop 3 invariant g_palh: s.inmemPrecommittedAlh == old(s.inmemPrecommittedAlh)
-//@   loop 3 invariant g_sz: s.precommittedTxLogSize == old(s.precommittedTxLogSize)
-//@   loop 3 invariant g_buf: s.cLogBuf == old(s.cLogBuf)
-//@   loop 3 invariant g_txbs: s._txbs == old(s._txbs)
-//@   loop 3 assigns s._txbs
